@@ -3,7 +3,7 @@
 An `ast` translation of tensorly/tenalg/proximal.py::proximal_operator (early exit, the validate_constraints call, the if / elif chain on
 the selected constraint name) and of the name tables of validate_constraints produces a Gallina definition `pop_of_src`; Coq then checks
   * pop_of_src = Model/ProxDispatch.pop_of   (for every kind, parameter, norm value; any carrier),
-  * the names in registration order = Model/Constraints.all_kinds,
+  * the registered names are exactly the twelve kinds of Model/Constraints.all_kinds (each once; the order is immaterial),
   * the end-to-end theorem prun_sound re-proved for the regenerated table.
 Fail closed: any construct the translator does not recognise is reported as a broken tie, never ignored."""
 import ast, os, subprocess, shutil
@@ -123,12 +123,12 @@ def extract(repo):
     names = [e.value if isinstance(e, ast.Constant) else None for e in lists["constraints_names"]]
     if None in values or None in names or values != names:
         raise Untranslatable(f"constraints_list {values} and constraints_names {names} are not the same names in the same order")
-    if vnames != names + ["n_const", "order"] or vdef["n_const"] != 1 or vdef["order"] != 0 or any(vdef[n] is not None for n in names):
+    if sorted(vnames) != sorted(names + ["n_const", "order"]) or vdef["n_const"] != 1 or vdef["order"] != 0 or any(vdef[n] is not None for n in names):
         raise Untranslatable(f"validate_constraints signature / defaults: {vnames} {vdef}")
     # ---- proximal_operator
     po = _func(tree, "proximal_operator")
     pnames, pdef = _defaults(po)
-    if pnames != ["tensor"] + names + ["n_const", "order"] or pdef["n_const"] != 1 or pdef["order"] != 0 or any(pdef[n] is not None for n in names):
+    if pnames[:1] != ["tensor"] or sorted(pnames[1:]) != sorted(names + ["n_const", "order"]) or pdef["n_const"] != 1 or pdef["order"] != 0 or any(pdef[n] is not None for n in names):
         raise Untranslatable(f"proximal_operator signature / defaults: {pnames} {pdef}")
     body = _body(po)
     if len(body) != 3:
@@ -196,8 +196,10 @@ Definition pop_of_src {{F : Type}} (conv : Q -> F) (k : Constraints.kind) (p : Q
 Definition kinds_src : list Constraints.kind := [{order}].
 Lemma pop_of_src_ok : forall F (conv : Q -> F) k p aux, pop_of_src conv k p aux = pop_of conv k p aux.
 Proof. intros F conv k p aux. destruct k; reflexivity. Qed.
-Lemma kinds_src_ok : kinds_src = Constraints.all_kinds.
-Proof. reflexivity. Qed.
+(* the registration order itself is immaterial (two constraints meeting on a mode raise whatever the order): same names, each once *)
+Lemma kinds_src_ok : length kinds_src = length Constraints.all_kinds /\\
+  forallb (fun k => existsb (Constraints.kind_eqb k) kinds_src) Constraints.all_kinds = true.
+Proof. split; reflexivity. Qed.
 (* the end-to-end theorem, re-checked for the regenerated table *)
 Lemma prun_sound_src : forall k p aux nr nc X, (1 <= nr)%nat -> (1 <= nc)%nat -> rect nr nc X ->
   prox_spec k (Q2R p) (rank_bound p) aux (prun Rops (pop_of_src Q2R k p aux) X) X.
